@@ -1,4 +1,216 @@
 package main
 
-// thoroughExtras is filled in below (build variants, mutant sensitivity self-test).
-func thoroughExtras(c *Ctx, pd *propDef, repo, verif string) {}
+import (
+	"bufio"
+	"bytes"
+	"encoding/json"
+	"fmt"
+	"os"
+	"os/exec"
+	"path/filepath"
+	"sort"
+	"strings"
+	"sync"
+)
+
+type childResult struct {
+	Exit   int
+	Fails  []Obligation
+	Output string
+}
+
+func runChild(prop, repo, verif string, extra ...string) childResult {
+	self, _ := os.Executable()
+	args := append([]string{"check", "-child", "-prop", prop, "-repo", repo, "-verif", verif}, extra...)
+	cmd := exec.Command(self, args...)
+	var out bytes.Buffer
+	cmd.Stdout = &out
+	cmd.Stderr = &out
+	err := cmd.Run()
+	res := childResult{Output: out.String()}
+	if err != nil {
+		if ee, ok := err.(*exec.ExitError); ok {
+			res.Exit = ee.ExitCode()
+		} else {
+			res.Exit = 2
+		}
+	}
+	sc := bufio.NewScanner(strings.NewReader(res.Output))
+	sc.Buffer(make([]byte, 1<<20), 1<<22)
+	for sc.Scan() {
+		if l := sc.Text(); strings.HasPrefix(l, "CHILD-FAIL ") {
+			var o Obligation
+			if json.Unmarshal([]byte(l[len("CHILD-FAIL "):]), &o) == nil {
+				res.Fails = append(res.Fails, o)
+			}
+		}
+	}
+	return res
+}
+
+type mutantSpec struct {
+	Name   string
+	Patch  string
+	Benign bool
+	Seeded bool
+}
+
+func listMutants(prop, verif string) []mutantSpec {
+	var out []mutantSpec
+	ps, _ := filepath.Glob(filepath.Join(verif, "mutants", prop, "*.patch"))
+	for _, f := range ps {
+		n := strings.TrimSuffix(filepath.Base(f), ".patch")
+		out = append(out, mutantSpec{Name: n, Patch: f, Benign: strings.HasPrefix(n, "benign-")})
+	}
+	ms, _ := filepath.Glob(filepath.Join(verif, "seeded", "*", "meta.json"))
+	for _, m := range ms {
+		b, err := os.ReadFile(m)
+		if err != nil {
+			continue
+		}
+		var meta struct {
+			Property   string   `json:"property"`
+			Properties []string `json:"also_breaks"`
+		}
+		if json.Unmarshal(b, &meta) != nil {
+			continue
+		}
+		match := meta.Property == prop
+		for _, q := range meta.Properties {
+			if q == prop {
+				match = true
+			}
+		}
+		if !match {
+			continue
+		}
+		pf := filepath.Join(filepath.Dir(m), "patch.diff")
+		if _, err := os.Stat(pf); err == nil {
+			out = append(out, mutantSpec{Name: "seeded/" + filepath.Base(filepath.Dir(m)), Patch: pf, Seeded: true})
+		}
+	}
+	sort.Slice(out, func(i, j int) bool { return out[i].Name < out[j].Name })
+	return out
+}
+
+// scratchCopy copies the working tree of repo (without .git) to a fresh temp dir.
+func scratchCopy(repo string) (string, error) {
+	dir, err := os.MkdirTemp("", "samlint-scratch-")
+	if err != nil {
+		return "", err
+	}
+	cmd := exec.Command("rsync", "-a", "--exclude", ".git", repo+"/", dir+"/")
+	if out, err := cmd.CombinedOutput(); err != nil {
+		os.RemoveAll(dir)
+		return "", fmt.Errorf("rsync: %v: %s", err, out)
+	}
+	return dir, nil
+}
+
+// thoroughExtras: build-variant matrix and the sensitivity self-test on scratch copies.
+func thoroughExtras(c *Ctx, pd *propDef, repo, verif string) {
+	// --- build variants (each in its own process)
+	type variantRes struct {
+		Variant string   `json:"variant"`
+		Status  string   `json:"status"`
+		Failing []string `json:"failing_keys,omitempty"`
+	}
+	var vres []variantRes
+	for _, v := range [][2]string{{"darwin", "amd64"}, {"linux", "386"}} {
+		r := runChild(pd.id, repo, verif, "-goos", v[0], "-goarch", v[1])
+		vr := variantRes{Variant: v[0] + "/" + v[1]}
+		switch {
+		case r.Exit == 0:
+			vr.Status = "all obligations discharged"
+		case r.Exit == 1:
+			vr.Status = "failing obligations"
+			for _, f := range r.Fails {
+				vr.Failing = append(vr.Failing, f.Key)
+				c.add(strings.TrimPrefix(f.Rule, c.Prop+"."), "["+vr.Variant+"] "+strings.TrimPrefix(f.Key, f.Rule+" / "), 0, f.Status, "build variant "+vr.Variant+": "+f.Detail+" ["+f.Pos+"]")
+			}
+		default:
+			vr.Status = "variant could not be loaded in this sandbox (not judged): " + firstLine(r.Output)
+		}
+		vres = append(vres, vr)
+		c.Note("build variant %s: %s", vr.Variant, vr.Status)
+	}
+	c.Extra["build_variants"] = vres
+
+	// --- sensitivity self-test
+	muts := listMutants(pd.id, verif)
+	type mutRes struct {
+		Mutant   string   `json:"mutant"`
+		Expected string   `json:"expected"`
+		Outcome  string   `json:"outcome"`
+		Keys     []string `json:"reported_keys,omitempty"`
+	}
+	results := make([]mutRes, len(muts))
+	var wg sync.WaitGroup
+	sem := make(chan struct{}, 4)
+	for i, m := range muts {
+		wg.Add(1)
+		go func(i int, m mutantSpec) {
+			defer wg.Done()
+			sem <- struct{}{}
+			defer func() { <-sem }()
+			res := mutRes{Mutant: m.Name, Expected: "detected"}
+			if m.Benign {
+				res.Expected = "silent (behaviour-preserving edit)"
+			}
+			dir, err := scratchCopy(repo)
+			if err != nil {
+				res.Outcome = "error: " + err.Error()
+				results[i] = res
+				return
+			}
+			defer os.RemoveAll(dir)
+			ap := exec.Command("git", "apply", "--whitespace=nowarn", m.Patch)
+			ap.Dir = dir
+			if out, err := ap.CombinedOutput(); err != nil {
+				res.Outcome = "inapplicable: " + firstLine(string(out))
+				results[i] = res
+				return
+			}
+			r := runChild(pd.id, dir, verif)
+			for _, f := range r.Fails {
+				res.Keys = append(res.Keys, f.Key)
+			}
+			switch {
+			case r.Exit == 2:
+				res.Outcome = "mutant does not load: " + firstLine(r.Output)
+			case r.Exit == 1 && !m.Benign:
+				res.Outcome = "detected"
+			case r.Exit == 0 && m.Benign:
+				res.Outcome = "silent"
+			case r.Exit == 0:
+				res.Outcome = "sensitivity_miss"
+			default:
+				res.Outcome = "false_alarm_on_benign_edit"
+			}
+			results[i] = res
+		}(i, m)
+	}
+	wg.Wait()
+	nd, nm := 0, 0
+	for _, r := range results {
+		if r.Outcome == "detected" || r.Outcome == "silent" {
+			nd++
+		} else {
+			nm++
+		}
+		fmt.Printf("sensitivity: %-40s expected=%-10s outcome=%s\n", r.Mutant, strings.Fields(r.Expected)[0], r.Outcome)
+	}
+	c.Extra["sensitivity"] = results
+	c.Note("sensitivity self-test: %d scratch-copy variants, %d as expected, %d not (informational; exit code reflects /repo only)", len(results), nd, nm)
+}
+
+func firstLine(s string) string {
+	s = strings.TrimSpace(s)
+	if i := strings.Index(s, "\n"); i >= 0 {
+		s = s[:i]
+	}
+	if len(s) > 200 {
+		s = s[:200]
+	}
+	return s
+}
